@@ -559,6 +559,11 @@ pub fn classify(md: &str, _o: &Opts, p: &Parsed, _clause: &str, kind: &str, sp: 
         return "document/empty-source".into();
     }
 
+    // the whole input is front matter: the document ends at column 0 of the closing delimiter line
+    if kind == "document" && p.nodes.iter().filter(|n| n.parent == Some(idx)).all(|n| n.kind == "frontmatter") && p.nodes.len() >= 2 {
+        return "document/only-front-matter".into();
+    }
+
     // NUL: replaced by U+FFFD (3 bytes) before columns are counted
     {
         let top = if chain.len() >= 2 { chain[chain.len() - 2] } else { idx };
@@ -719,18 +724,19 @@ pub fn classify(md: &str, _o: &Opts, p: &Parsed, _clause: &str, kind: &str, sp: 
                 }
             }
         }
-        // wikilink broken across lines
-        for &i in &chain {
-            let n = &p.nodes[i];
-            if n.kind == "wikilink" && !text_at(&lines, n.sp.0, n.sp.1).contains("]]") {
-                return "wikilink-spans-lines".into();
-            }
-        }
-        // link / image whose destination, title or reference label part spans a line break
-        for &i in &chain {
-            let n = &p.nodes[i];
-            if n.kind == "link" || n.kind == "image" {
-                if link_tail_spans_lines(&lines, p, i) {
+        // a wikilink / link / image of the same block that is broken across lines: the inline parser does not
+        // advance its line, so the node itself and everything after it in the block is misplaced
+        if let Some(b) = blk {
+            let bi = chain.iter().copied().find(|&i| !is_inline(p.nodes[i].kind)).unwrap();
+            let _ = b;
+            for (j, n) in p.nodes.iter().enumerate() {
+                if !ancestors(p, j).contains(&bi) {
+                    continue;
+                }
+                if n.kind == "wikilink" && !text_at(&lines, n.sp.0, n.sp.1).contains("]]") {
+                    return "wikilink-spans-lines".into();
+                }
+                if (n.kind == "link" || n.kind == "image") && link_tail_spans_lines(&lines, p, j) {
                     return "link-tail-spans-lines".into();
                 }
             }
@@ -996,12 +1002,61 @@ pub fn corpus_docs() -> Vec<&'static str> {
     ]
 }
 
+/// K: the real `Spx::consume` (hook `comrak::verif::spx_consume`) against the Lean model `spxConsume`,
+/// one step at a time, panics (assertion / unreachable) against the model's `none`.
+fn spx_k(cfg: &Cfg, rep: &mut Report, m: &Model) {
+    let mut rng = Rng::new(cfg.seed ^ 0x5B7);
+    let n = if cfg.tier_thorough { 60_000 } else { 6_000 };
+    let mut bt = Batch::new();
+    for i in 0..n {
+        let nseg = rng.range(1, 4);
+        let mut col = rng.range(1, 9);
+        let line = rng.range(1, 5);
+        let mut segs: Vec<((usize, usize, usize, usize), usize)> = vec![];
+        for _ in 0..nseg {
+            let lo = if rng.chance(1, 8) { 0 } else { 1 };
+            let x = rng.range(lo, 6);
+            // mostly exact spans (what make_inline gives verbatim runs), sometimes a span that is longer or
+            // shorter than its byte count (entities, smart punctuation)
+            let width = if rng.chance(1, 5) { rng.range(1, 8) } else { x.max(1) };
+            segs.push(((line, col, line, col + width - 1), x));
+            col += width + rng.below(2);
+        }
+        let total: usize = segs.iter().map(|s| s.1).sum();
+        let rem = rng.range(0, total + 1);
+        let q: Vec<String> = segs.iter().map(|(sp, x)| format!("{}:{}:{}:{}:{}", sp.0, sp.1, sp.2, sp.3, x)).collect();
+        let req = format!("spx {} {}", rem, q.join(","));
+        let real = match catch_unwind(AssertUnwindSafe(|| comrak::verif::spx_consume(&segs, &[rem]))) {
+            Err(_) => "PANIC".to_string(),
+            Ok((res, left)) => {
+                let l: Vec<String> = left.iter().map(|(sp, x)| format!("{}:{}:{}:{}:{}", sp.0, sp.1, sp.2, sp.3, x)).collect();
+                format!("{} {}", res[0], if l.is_empty() { "-".to_string() } else { l.join(",") })
+            }
+        };
+        rep.count(if real == "PANIC" { "spx-case-panics" } else { "spx-case-returns" });
+        if i < 2 {
+            rep.sample(format!("{} -> {}", req, real));
+        }
+        let r2 = req.clone();
+        bt.push(req, move |resp, rep| {
+            rep.k_evals += 1;
+            if resp != real {
+                rep.disagree("spx-consume", r2, format!("real={} model={}", real, resp));
+            }
+        });
+    }
+    bt.run(m, rep);
+}
+
 pub fn run(which: Which, cfg: &Cfg, rep: &mut Report) {
     let m = Model::from_env();
+    if which == Which::C11 {
+        spx_k(cfg, rep, &m);
+    }
     let tag = if which == Which::C11 { 0xC11 } else { 0xC12 };
     let mut rng = Rng::new(cfg.seed ^ tag);
     rep.rule = "documents from the position grammar (words over ASCII + 2/3/4-byte characters + tabs; emphasis, strong, code spans, links, images, autolinks, footnote references, escapes, entities and hard/soft breaks, nested and spanning lines; paragraphs, ATX/setext headings, thematic breaks, fenced/indented code, HTML blocks, footnote definitions, reference definitions, tables, alerts, multi-line block quotes inside block quotes and lists up to depth 3 with partial prefixes and lazy continuation lines) with LF / CRLF / CR / mixed line endings x Opts::random; every node of the real tree is judged by the Lean oracles; distinct_nontrivial counts distinct (node-kind sequence, option bits) classes".into();
-    let n = if cfg.tier_thorough { 400_000 } else { 40_000 };
+    let n = if cfg.tier_thorough { 600_000 } else { 100_000 };
     let mut done = 0;
     // fixed corpus first
     let mut bt = Batch::new();
